@@ -232,6 +232,39 @@ impl Visit for Decls {
 // ---------------------------------------------------------------------------------------------
 // frame fingerprints
 
+thread_local! {
+    /// local bindings of Vue's `defineComponent` in the module being analysed: (sym, ctxt)
+    static VUE_DC: std::cell::RefCell<Vec<(String, SyntaxContext)>> = const { std::cell::RefCell::new(Vec::new()) };
+}
+
+fn collect_vue_define_component(m: &Module) {
+    let mut v = vec![];
+    for item in &m.body {
+        if let ModuleItem::ModuleDecl(ModuleDecl::Import(imp)) = item {
+            if &*imp.src.value != "vue" {
+                continue;
+            }
+            for sp in &imp.specifiers {
+                if let ImportSpecifier::Named(n) = sp {
+                    let imported = match &n.imported {
+                        Some(ModuleExportName::Ident(i)) => i.sym.to_string(),
+                        Some(ModuleExportName::Str(s)) => s.value.to_string(),
+                        None => n.local.sym.to_string(),
+                    };
+                    if imported == "defineComponent" {
+                        v.push((n.local.sym.to_string(), n.local.ctxt));
+                    }
+                }
+            }
+        }
+    }
+    VUE_DC.with(|c| *c.borrow_mut() = v);
+}
+
+fn is_vue_define_component(i: &Ident) -> bool {
+    VUE_DC.with(|c| c.borrow().iter().any(|(s, cx)| s == &*i.sym && *cx == i.ctxt))
+}
+
 struct HasJsx {
     found: bool,
     define_component: bool,
@@ -247,7 +280,7 @@ impl Visit for HasJsx {
         if self.define_component {
             if let Callee::Expr(e) = &n.callee {
                 if let Expr::Ident(i) = &**e {
-                    if &*i.sym == "defineComponent" {
+                    if is_vue_define_component(i) {
                         self.found = true;
                     }
                 }
@@ -296,6 +329,22 @@ impl Visit for FrameIn {
                 } else {
                     self.fps.push(fnv(&to_code(n)))
                 }
+            }
+        }
+    }
+    fn visit_call_expr(&mut self, n: &CallExpr) {
+        // a call of Vue's defineComponent may get options added: an options object literal is
+        // looked at entry by entry (each written entry must survive), everything else as usual
+        let is_dc = self.dc
+            && matches!(&n.callee, Callee::Expr(e) if matches!(&**e, Expr::Ident(i) if is_vue_define_component(i)));
+        if !is_dc {
+            return n.visit_children_with(self);
+        }
+        n.callee.visit_with(self);
+        for (i, a) in n.args.iter().enumerate() {
+            match (&*a.expr, i, a.spread) {
+                (Expr::Object(o), 1, None) => o.props.iter().for_each(|p| p.visit_children_with(self)),
+                _ => a.visit_with(self),
             }
         }
     }
@@ -488,6 +537,7 @@ fn observe(c: &Case) -> Value {
             phase("analyse");
             let raw = r.raw.as_ref().unwrap();
             let input = r.input.as_ref().unwrap();
+            collect_vue_define_component(input);
             let unresolved = r.unresolved.unwrap();
             // census on the AST the next pass would receive
             let mut cs = Census::default();
@@ -508,7 +558,7 @@ fn observe(c: &Case) -> Value {
                         fn visit_call_expr(&mut self, n: &CallExpr) {
                             if let Callee::Expr(e) = &n.callee {
                                 if let Expr::Ident(i) = &**e {
-                                    if &*i.sym == "defineComponent" {
+                                    if is_vue_define_component(i) {
                                         self.0.found = true;
                                     }
                                 }
